@@ -318,6 +318,57 @@ Fixpoint c_walk (fuel : nat) (t : tree) (p : path) (k : kind) : list (path * kin
 Definition spec_walk (t : tree) (p : path) (k : kind) : list (path * kind) :=
   (p, k) :: filter (fun e => under p (fst e) && negb (path_eqb (fst e) p)) t.
 
+(* ---------- Client.Glob (match.go). A pattern is a list of component patterns; what path.Match says about a component pattern
+   and a name is GIVEN (cp_all / cp_names: the names it matches; cp_meta: whether hasMeta holds of its text) - package path is
+   outside the repository. Modelled for clean patterns (no empty, "." or ".." components). ---------- *)
+Record cpat := { cp_meta : bool; cp_all : bool; cp_names : list name }.
+Definition cmatch (c : cpat) (n : name) : bool := cp_all c || existsb (Nat.eqb n) (cp_names c).
+Definition lit_name (c : cpat) : name := hd 0 (cp_names c).
+
+(* Client.glob(dir, pattern): Stat(dir) must be a directory; ReadDir; Match every name *)
+Definition glob1 (t : tree) (dir : path) (c : cpat) : option (list path) :=
+  match stat t dir with
+  | LUndef => None
+  | LKind KDir => Some (map fst (filter (fun e => cmatch c (last (fst e) 0)) (children t dir)))
+  | _ => Some []
+  end.
+
+(* for d in m: matches = glob(d, file, matches); None as soon as one step is outside the model *)
+Fixpoint glob_each (t : tree) (c : cpat) (m : list path) : option (list path) :=
+  match m with
+  | [] => Some []
+  | d :: rest => match glob1 t d c, glob_each t c rest with
+                 | Some a, Some b => Some (a ++ b)
+                 | _, _ => None
+                 end
+  end.
+
+Definition has_meta (ps : list cpat) : bool := existsb cp_meta ps.
+
+(* Client.Glob, on the pattern's components last one first: no magic character at all - one LSTAT of the pattern as a path;
+   none in the directory part - glob(dir, file) directly; otherwise Glob(dir) first and glob(d, file) for each of its results *)
+Fixpoint c_glob (t : tree) (rp : list cpat) : option (list path) :=
+  match rp with
+  | [] => Some [[]]
+  | c :: rps =>
+      let dirpath := map lit_name (rev rps) in
+      if negb (has_meta (c :: rps)) then
+        match lstat t (dirpath ++ [lit_name c]) with
+        | LKind _ => Some [dirpath ++ [lit_name c]]
+        | LUndef => None
+        | _ => Some []
+        end
+      else if negb (has_meta rps) then glob1 t dirpath c
+      else match c_glob t rps with Some m => glob_each t c m | None => None end
+  end.
+
+(* filepath.Glob's meaning: expand the pattern component by component, every component alike *)
+Fixpoint spec_glob (t : tree) (rp : list cpat) : option (list path) :=
+  match rp with
+  | [] => Some [[]]
+  | c :: rps => match spec_glob t rps with Some m => glob_each t c m | None => None end
+  end.
+
 (* well-formed trees: every path once, no entry for the root, the parent of every entry is a directory *)
 Definition wf (t : tree) : Prop :=
   NoDup (map fst t) /\ forall p k, In (p, k) t -> p <> [] /\ kind_at t (removelast p) = Some KDir.
